@@ -164,6 +164,7 @@ class Ctx:
         self.in_interface = in_interface
         self.labels = set()
         self.pending = []
+        self.cid = None
         self.loops = []  # stack of (construct name or None)
         self.named = []  # stack of construct names (for EXIT from non-loop: f2008 only, unused)
         self.nonblock_depth = 0
@@ -313,6 +314,7 @@ class ProgramGen:
             # documented "only the main program is output" limitation; C02 owns it
             has_stmt = True
         cid = self.new_cid()
+        ctx.cid = cid
         if has_stmt:
             self.S("program", "program " + name, cid=cid, role="open", flags={"unit_open"})
             self.depth += 1
@@ -340,6 +342,7 @@ class ProgramGen:
         ctx = Ctx("subroutine", internal, in_module, in_interface)
         name = self.env.fresh()
         cid = self.new_cid()
+        ctx.cid = cid
         pre = ""
         if self.p(0.2):
             pre = self.r.choice(["pure ", "elemental ", "recursive ", "pure recursive "])
@@ -369,6 +372,7 @@ class ProgramGen:
         ctx = Ctx("function", internal, in_module, in_interface)
         name = self.env.fresh()
         cid = self.new_cid()
+        ctx.cid = cid
         r = self.r
         pre = []
         if self.p(0.2):
@@ -450,7 +454,7 @@ class ProgramGen:
     def contains_part(self, ctx):
         if not self.p(0.35):
             return
-        self.S("contains", "contains", role="mid")
+        self.S("contains", "contains", cid=ctx.cid, role="mid")
         for _ in range(self.r.choice([1, 1, 2])):
             if self.p(0.5):
                 self.unit_subroutine(internal=True)
